@@ -90,10 +90,26 @@ where
         let push := (g.kids n).filter (fun c => !visited.contains c)
         go fuel (push.reverse ++ stack) visited (n :: acc)
 
-/-- `is_source_task` / `is_sink_task` (all tasks of a graph share one timestamp,
-so the "same task of the neighbouring timestamp" clause never applies). -/
-def isSource (g : GraphS) (n : Nat) : Bool := (g.pars n).isEmpty
-def isSink (g : GraphS) (n : Nat) : Bool := (g.kids n).isEmpty
+/-- `a` is the same task as `b` at the previous timestamp (same name, `ts + 1`). -/
+def prevStamp (g : GraphS) (a b : Nat) : Bool :=
+  match g.task? a, g.task? b with
+  | some x, some y => x.name == y.name && x.ts + 1 == y.ts
+  | _, _ => false
+
+/-- `is_source_task`: no parents, or exactly one parent that is the same task of the
+previous timestamp. `is_sink_task`: no children, or exactly one child that is the same
+task of the next timestamp. (The graphs of the JSON / YAML loaders carry one timestamp, so
+there the second clause never applies.) -/
+def isSource (g : GraphS) (n : Nat) : Bool :=
+  match g.pars n with
+  | [] => true
+  | [p] => g.prevStamp p n
+  | _ => false
+def isSink (g : GraphS) (n : Nat) : Bool :=
+  match g.kids n with
+  | [] => true
+  | [c] => g.prevStamp n c
+  | _ => false
 def sinks (g : GraphS) : List Nat := g.nodes.filter g.isSink
 def sources (g : GraphS) : List Nat := g.nodes.filter g.isSource
 
